@@ -2,7 +2,7 @@
 import numpy as np
 
 from vmon import events
-from vmon.gen import patterns, planted
+from vmon.gen import inplace, patterns, planted
 from vmon.oracle import geometry as G
 from vmon.oracle import refmatch
 
@@ -14,7 +14,9 @@ RULE = ("Planted structures: 1-4 copies of a pattern (12 symmetry classes) in ra
         "image, same-element distractors), bystanders; tolerances {0.01,0.05,0.2,0.5}; RNG schedules (seeded, first, "
         "last, round-robin). The expected answer is computed by the harness's independent brute-force matcher with a "
         "clear-occurrence / gray / clear-non-occurrence split; the real search must report every clear occurrence, "
-        "no clear non-occurrence, no atom group twice, and exactly the number of occurrences when nothing is gray. "
+        "no clear non-occurrence, no atom group twice, and exactly the number of occurrences when nothing is gray. The "
+        "same object is then edited where it is (translate()+wrap, atom moved, positions swapped, atom retyped; array "
+        "identities kept) and searched and judged again. "
         "Non-trivial: at least one clear occurrence straddling a face or at least one decoy; distinct by seed.")
 ASSUMPTIONS = ["gray groups (between 0.12*atol optimal residual and the sqrt(3)*atol RMS bound) are never judged",
                "domain: atoms inside the cell, perpendicular widths > pattern diameter + 2*atol (checked per case)"]
@@ -143,6 +145,14 @@ def run_case(case, ctx):
             st.seen("accepted_exact_pose_in_frame", "%s/%s" % (pose, pat.get("frame", "random")))
     if (occ and straddle) or built["decoy_groups"]:
         ctx.nontrivial(case["s"])
+    # the same object, edited where it is, searched again: judged against the reference matcher run on the new state
+    for rep in range(2):
+        desc = inplace.edit_structure(rng, built["atoms"], kind=None if rep else "translate_wrap")
+        r2 = search_and_judge(ctx, st, case, pat, built, atol, label="after in-place %s: " % desc[0])
+        if r2 is not None:
+            st.count("searches_after_inplace_edit")
+            st.count("occurrences_after_inplace_edit", len(r2[2]))
+            st.seen("inplace_edit", desc[0])
     if occ and straddle and len(built["atoms"]) <= 16:
         ctx.sample({"case": {k: case[k] for k in ("cell", "pattern", "atol", "crossings", "poses", "decoys", "schedule")},
                     "cell": np.round(built["cell"], 3).tolist(), "n_atoms": len(built["atoms"]), "planted": built["planted"],
@@ -168,6 +178,9 @@ def requirements(stats, tier):
         need.append("accepted occurrences for only %d pose classes" % stats.nseen("accepted_pose"))
     if sum(1 for x in stats.sets.get("accepted_exact_pose_in_frame", ()) if x.startswith("axis_antiparallel_exact/axis")) < 3:
         need.append("exactly antiparallel copies of patterns whose search axis lies along a signed coordinate axis: %s" % sorted(stats.sets.get("accepted_exact_pose_in_frame", ())))
+    if stats.get("occurrences_after_inplace_edit") < (300 if tier == "quick" else 20000) or stats.nseen("inplace_edit") < 4:
+        need.append("searches of an object edited in place since its last search: %d clear occurrences, edit kinds %s" %
+                    (stats.get("occurrences_after_inplace_edit"), sorted(stats.sets.get("inplace_edit", []))))
     if stats.get("searches") < (500 if tier == "quick" else 45000):
         need.append("too few searches: %d" % stats.get("searches"))
     if stats.get("contract_eval.C01.in_domain") < stats.get("searches"):
